@@ -371,6 +371,12 @@ def render_source(spec) -> str:
 _COUNTER = [0]
 
 
+def reset_names():
+    """module names of built specifications restart at every simulated run, so that nothing
+    (e.g. the address-free ordering key of a class) depends on how many runs the process has executed"""
+    _COUNTER[0] = 0
+
+
 class Built:
     """Real classes for a specification, living in a synthetic module registered in sys.modules."""
 
